@@ -28,7 +28,8 @@ ALSO = {"C08a": ["C12"], "C10a": ["C12"], "C11b": ["C12"], "C12a": ["C08"], "C12
         "C09h": ["C08"], "C07i": ["C06"], "C13i": ["C01", "C18", "C20"], "C18i": ["C04"], "C01j": ["C13", "C18"],
         "C12k": ["C05"], "C05j": ["C03"], "C20j": ["C18"], "C03j": ["C05"],
         "C19j": ["C15"], "C13j": ["C01", "C12", "C03"], "C18j": ["C03"], "C06j": ["C07"],
-        "C07j": ["C12"], "C10k": ["C03", "C05", "C16"], "C05k": ["C03"]}
+        "C07j": ["C12"], "C10k": ["C03", "C05", "C16"], "C05k": ["C03"],
+        "C04k": ["C16", "C13"], "C13k": ["C01", "C09"]}
 
 
 def run(sid, all_checks=False):
